@@ -89,7 +89,9 @@ static void battery(const Table& t, const std::vector<double>& x, const std::str
   }
   std::fill(der.begin(), der.end(), 2u); g_sink = t.ndsplineeval_deriv(x.data(), c, der.data());
   { struct splinetable st; st.data = const_cast<Table*>(&t); g_sink = ndsplineeval(&st, x.data(), c, 0); g_sink = ndsplineeval_deriv(&st, x.data(), c, der.data());
-    if (nd + 1 <= PHOTOSPLINE_MAXDIM) { Guarded<double> out(nd + 1, -7.25); ndsplineeval_gradient(&st, x.data(), c, out.data()); if (!out.intact(-7.25)) H->violation("gradient-wrote-outside-buffer", where); } }
+    // the C gradient entry has no way to report a refusal (void): for tables beyond the SIMD layout it must neither let the C++ exception
+    // cross the C boundary (that terminates the process: attributed to this case by the runner) nor touch memory outside the caller's buffer
+    { Guarded<double> out(nd + 1, -7.25); ndsplineeval_gradient(&st, x.data(), c, out.data()); if (!out.intact(-7.25)) H->violation("gradient-wrote-outside-buffer", where); } }
 }
 
 // ---- table variants: how the knot padding came to exist
